@@ -141,6 +141,10 @@ def normal(lex: dict, v: str, model_side: bool, sense_frames=None) -> dict:
 
 
 def compare_export(model_lex: dict, got_lex: dict, v0: str, v: str, out: list, label: str):
+    if v != '1.3':
+        from ..canon import _normalise_preserved
+        model_lex = copy.deepcopy(model_lex)
+        _normalise_preserved(model_lex)
     m = normal(canon(model_lex), v0, True)
     g = normal(canon(got_lex), v, False)
     v10 = v == '1.0'
@@ -202,6 +206,25 @@ def compare_export(model_lex: dict, got_lex: dict, v0: str, v: str, out: list, l
         out.append(Disc('export:content', f'{label}{p}', e, gg))
 
 
+def _ws(c):
+    return ' '.join(c.split()) if isinstance(c, str) else c
+
+
+def _ws_texts(o, inside=False):
+    """White-space normalise every string below a 'definition' / 'examples' key."""
+    if isinstance(o, dict):
+        out = {}
+        for k, x in o.items():
+            if k == 'definition' and isinstance(x, str):
+                out[k] = _ws(x) or None          # a blank definition reads as no definition
+            else:
+                out[k] = _ws_texts(x, inside or k in ('definition', 'definitions', 'examples'))
+        return out
+    if isinstance(o, list):
+        return [_ws_texts(x, inside) for x in o]
+    return _ws(o) if inside else o
+
+
 def _mask_logical(d: dict, v: str, frame_has_id: dict) -> dict:
     d = {t: [list(r) for r in rows] for t, rows in d.items()}
     # synset_rank: explicit in the re-import, default in the original
@@ -226,6 +249,10 @@ def _mask_logical(d: dict, v: str, frame_has_id: dict) -> dict:
         linked = {(r[0], r[1]) for r in d['syntactic_behaviour_senses']}
         d['syntactic_behaviours'] = [r for r in d.get('syntactic_behaviours', [])
                                      if (r[0], r[2]) in linked]
+    if v != '1.3':
+        # only 1.3 can say xml:space="preserve": elsewhere texts come back white-space normalised
+        for t in ('definitions', 'synset_examples', 'sense_examples', 'proposed_ilis', 'ilis'):
+            d[t] = [[_ws(c) for c in r] for r in d.get(t, [])]
     for t in d:
         rows = [[None if c == '' else c for c in r] for r in d[t]]
         if t.endswith('_relations'):
@@ -357,6 +384,10 @@ def _mask_api(api: dict, v: str, frame_has_id: dict) -> dict:
                 for f in [rec['lemma']] + rec['forms']:
                     f['pronunciations'] = []
                     f['id'] = None
+    if v != '1.3':
+        api = _ws_texts(api)
+        for o in api.values():
+            o['ilis'] = sorted(o.get('ilis', []), key=_k)
     return api
 
 
